@@ -18,8 +18,10 @@ DYADIC = [0.0, 0.5, 1.0, 2.0, 3.0, 4.0]
 NUMERALS = ["0", "1", "2", "3", "0.5", "1.5"]
 
 
-def gen_world(rng, numeric, n_agents, with_when=False):
-    """a small typed multi-agent domain: the first parameter of every action is its agent"""
+def gen_world(rng, numeric, n_agents, with_when=False, dense=False):
+    """a small typed multi-agent domain: the first parameter of every action is its agent.
+    dense: one item, few predicates, the global fluent g always present, hardly any precondition — neighbouring
+    actions of different agents are then often both applicable and often interfere"""
     w = G.World()
     w.types = {"agent": "object", "item": "object"}
     w.type_lines = [(["agent", "item"], "object")]
@@ -29,18 +31,20 @@ def gen_world(rng, numeric, n_agents, with_when=False):
         w.type_lines = [(["bot"], "agent"), (["agent", "item"], "object")]
         rng.shuffle(w.type_lines)
     agents = [("a%d" % i, "bot" if bot and rng.random() < 0.5 else "agent") for i in range(1, n_agents + 1)]
-    items = [("i%d" % i, "item") for i in range(1, rng.randint(1, 3) + 1)]
-    if rng.random() < 0.2:
+    items = [("i%d" % i, "item") for i in range(1, (1 if dense else rng.randint(1, 3)) + 1)]
+    if rng.random() < 0.2 and not dense:
         w.consts.append(("c0", "item"))
-    for i in range(rng.randint(1, 2)):
+    for i in range(1 if dense else rng.randint(1, 2)):
         w.preds.append(("z%d" % i, []))
-    for i in range(rng.randint(1, 2)):
+    for i in range(1 if dense else rng.randint(1, 2)):
         w.preds.append(("p%d" % i, [("?x", "item")]))
-    if rng.random() < 0.6:
+    if rng.random() < 0.6 and not dense:
         w.preds.append(("h0", [("?a", "agent")]))
-    if rng.random() < 0.5:
+    if rng.random() < 0.5 and not dense:
         w.preds.append(("at0", [("?a", "agent"), ("?x", "item")]))
-    if numeric:
+    if numeric and dense:
+        w.funcs = [("g", []), ("f", [("?a", "agent")])] + ([("v", [("?x", "item")])] if rng.random() < 0.4 else [])
+    elif numeric:
         pool = [("g", []), ("f", [("?a", "agent")]), ("v", [("?x", "item")])]
         rng.shuffle(pool)
         w.funcs = pool[:rng.randint(1, 3)]
@@ -49,11 +53,13 @@ def gen_world(rng, numeric, n_agents, with_when=False):
                             [("?x", "item"), ("?b", "agent")]])
         params = [("?a", "agent")] + extra
         w.actions.append({"name": "act%d" % k, "params": params, "group": False,
-                          "pre": gen_pre(rng, w, params), "eff": gen_eff(rng, w, params, with_when)})
+                          "pre": gen_pre(rng, w, params, dense), "eff": gen_eff(rng, w, params, with_when)})
     if numeric:
         w.features.add("numeric")
     if with_when:
         w.features.add("when")
+    if dense:
+        w.features.add("dense")
     return w, agents, items
 
 
@@ -84,16 +90,18 @@ def fluents_over(w, scope):
 def gen_nexp(rng, w, scope):
     fl = fluents_over(w, scope)
     r = rng.random()
-    if fl and r < 0.35:
+    if fl and r < 0.4:
         return rng.choice(fl)
-    if fl and r < 0.55:
+    if fl and r < 0.65:
         return [rng.choice(["+", "*", "-"]), rng.choice(fl), rng.choice(NUMERALS)]
     return rng.choice(NUMERALS)
 
 
-def gen_pre(rng, w, params):
+def gen_pre(rng, w, params, dense=False):
     items = []
     atoms = atoms_over(w, params)
+    if dense and rng.random() < 0.6:
+        return ["and"]
     for _ in range(rng.choice([0, 1, 1, 2])):
         if atoms:
             a = rng.choice(atoms)
@@ -172,12 +180,12 @@ STYLES = ["shipped", "shipped", "shipped", "bare", "colon", "upper", "spaced", "
 
 def build_generated(rng, tier):
     """worlds with problem text; the plans are made afterwards by the real Operator (ops_c15.walk)"""
-    n = {"quick": 70, "thorough": 700}[tier]
+    n = {"quick": 50, "thorough": 600}[tier]
     worlds = []
     for k in range(n):
         numeric = rng.random() < 0.5
         n_agents = rng.choice([2, 3, 3, 4])
-        w, agents, items = gen_world(rng, numeric, n_agents, with_when=rng.random() < 0.15)
+        w, agents, items = gen_world(rng, numeric, n_agents, with_when=rng.random() < 0.15, dense=rng.random() < 0.4)
         objs = agents + items
         st = G.gen_state(rng, w, objs, density=rng.choice([0.3, 0.5, 0.7]))
         st["fluents"] = [(f, a, rng.choice(DYADIC)) for f, a, _ in st["fluents"]]
@@ -223,7 +231,9 @@ def plain_plan(text):
     return plan
 
 
-def shipped_inputs():
+def shipped_inputs(tier):
+    """thorough: every shipped plan with both settings of the flag; quick: one setting each (the one its repository test
+    uses), both for the small woodworking and blocks plans"""
     out = []
     for name, d, p, pl, agents in SHIPPED:
         base = REPO / TESTS
@@ -231,7 +241,9 @@ def shipped_inputs():
             dt, pt, plt = (base / d).read_text(), (base / p).read_text(), (base / pl).read_text()
         except OSError:
             continue
-        for flag in (True, False):
+        flags = (True, False) if tier == "thorough" or name in ("woodworking", "blocks") else \
+            ((False,) if name == "sokoban-interacting" else (True,))
+        for flag in flags:
             out.append({"kind": "shipped:" + name, "domain_text": dt, "problem_text": pt, "plan_text": plt,
                         "plan": plain_plan(plt), "agents": agents, "flag": flag, "features": ["shipped"]})
     return out
@@ -302,7 +314,7 @@ def build_inputs(rng, tier):
                            "problem_text": w["problem_text"], "plan_text": w["plan_text"], "plan": w["plan"],
                            "agents": w["agents"], "flag": w["flag"], "features": ["witness"],
                            "witness_of": f["id"] if f.get("status") == "open" else None})
-    inputs += shipped_inputs()
+    inputs += shipped_inputs(tier)
     worlds = build_generated(rng, tier)
     walks = run_impl([{"op": "c15.walk", "domain_text": w["domain_text"], "problem_text": w["problem_text"],
                        "agents": w["agents"], "steps": w["steps"], "seed": w["walk_seed"], "switch": w["switch"]}
